@@ -18,6 +18,11 @@ package c06
 //	                   recipient or a low gas limit
 //	erc20_transfer, erc20_burn
 //	                   EVM tx calling the ERC20 itself (user transfers, donations to the module, burns)
+//	tf_create, tf_mint, tf_burn, tf_change_admin
+//	                   x/tokenfactory Cosmos txs: create a factory denom, the admin mints to / burns from ANY account
+//	                   (incl. attempts on the EVM module account's escrow), hands the admin role on
+//	bank_send, bank_multisend
+//	                   plain x/bank Cosmos txs between accounts (incl. attempts to pay the EVM module account)
 //	seq                two ops in ONE transaction: two calls made by the forwarder in one EVM tx, or two
 //	                   messages of one signer in one Cosmos tx (both take effect or neither)
 //
@@ -43,6 +48,7 @@ import (
 	"github.com/cosmos/cosmos-sdk/crypto/keys/secp256k1"
 	sdk "github.com/cosmos/cosmos-sdk/types"
 	bank "github.com/cosmos/cosmos-sdk/x/bank/types"
+	tftypes "github.com/NibiruChain/nibiru/v2/x/tokenfactory/types"
 	gethcommon "github.com/ethereum/go-ethereum/common"
 	"github.com/ethereum/go-ethereum/core/vm"
 	"github.com/ethereum/go-ethereum/crypto"
@@ -60,7 +66,9 @@ import (
 // ---------------------------------------------------------------- input / output shapes
 
 type denomRef struct {
-	K string `json:"k"` // "c": ordinary coin ucoin<N>; "e": erc20/<address of token N>; "g": the gas coin unibi
+	// "c": ordinary coin ucoin<N>; "e": erc20/<address of token N>; "g": the gas coin unibi;
+	// "t": tokenfactory denom tf/<account N/10>/sub<N%10>
+	K string `json:"k"`
 	N int    `json:"n"`
 }
 
@@ -77,6 +85,8 @@ type c06Op struct {
 	BadTo bool      `json:"bad_to,omitempty"` // unparsable recipient string
 	Gas   uint64    `json:"gas,omitempty"`    // explicit (low) gas limit
 	Ops   []c06Op   `json:"ops,omitempty"`    // seq: two ops in ONE transaction (both or nothing)
+	To2   int       `json:"to2,omitempty"`    // bank_multisend: second output
+	X2    string    `json:"x2,omitempty"`
 	// CallGas: the forwarder hands the precompile / ERC20 exactly this gas stipend (frame "plain"); the tx itself has ample gas
 	CallGas uint64 `json:"call_gas,omitempty"`
 }
@@ -220,6 +230,9 @@ func (w *world) denom(d *denomRef) string {
 	if d.K == "g" {
 		return evm.EVMBankDenom
 	}
+	if d.K == "t" {
+		return tftypes.TFDenom{Creator: w.nibi(d.N / 10).String(), Subdenom: fmt.Sprintf("sub%d", d.N%10)}.Denom().String()
+	}
 	return fmt.Sprintf("ucoin%d", d.N)
 }
 
@@ -239,6 +252,15 @@ func (w *world) denomRefOf(s string) denomRef {
 	if strings.HasPrefix(s, "ucoin") {
 		if n, err := strconv.Atoi(s[5:]); err == nil {
 			return denomRef{K: "c", N: n}
+		}
+	}
+	if strings.HasPrefix(s, "tf/") {
+		for id := 1; id <= 6; id++ {
+			for k := 0; k < 10; k++ {
+				if r := (denomRef{K: "t", N: id*10 + k}); w.denom(&r) == s {
+					return r
+				}
+			}
 		}
 	}
 	if strings.HasPrefix(s, "erc20/") {
@@ -340,6 +362,39 @@ func (w *world) cosmosMsg(op c06Op) sdk.Msg {
 		return &evm.MsgCreateFunToken{FromBankDenom: w.denom(op.D), Sender: w.nibi(op.A).String()}
 	case "create_erc20":
 		return &evm.MsgCreateFunToken{FromErc20: &eth.EIP55Addr{Address: w.tokAddr(op.T)}, Sender: w.nibi(op.A).String()}
+	case "tf_create":
+		if op.D == nil || op.D.K != "t" || op.D.N/10 != op.A {
+			return nil
+		}
+		return &tftypes.MsgCreateDenom{Sender: w.nibi(op.A).String(), Subdenom: fmt.Sprintf("sub%d", op.D.N%10)}
+	case "tf_mint", "tf_burn", "bank_send", "bank_multisend":
+		x, ok := parseAmt(op.X)
+		if !ok || op.D == nil {
+			return nil
+		}
+		coin := sdk.Coin{Denom: w.denom(op.D), Amount: sdkmath.NewIntFromBigInt(x)}
+		switch op.K {
+		case "tf_mint":
+			return &tftypes.MsgMint{Sender: w.nibi(op.A).String(), Coin: coin, MintTo: w.nibi(op.To).String()}
+		case "tf_burn":
+			return &tftypes.MsgBurn{Sender: w.nibi(op.A).String(), Coin: coin, BurnFrom: w.nibi(op.To).String()}
+		case "bank_send":
+			return &bank.MsgSend{FromAddress: w.nibi(op.A).String(), ToAddress: w.nibi(op.To).String(), Amount: sdk.Coins{coin}}
+		}
+		x2, ok2 := parseAmt(op.X2)
+		if !ok2 || x.Sign() <= 0 || x2.Sign() <= 0 {
+			return nil
+		}
+		coin2 := sdk.Coin{Denom: coin.Denom, Amount: sdkmath.NewIntFromBigInt(x2)}
+		return &bank.MsgMultiSend{
+			Inputs:  []bank.Input{{Address: w.nibi(op.A).String(), Coins: sdk.Coins{coin.Add(coin2)}}},
+			Outputs: []bank.Output{{Address: w.nibi(op.To).String(), Coins: sdk.Coins{coin}}, {Address: w.nibi(op.To2).String(), Coins: sdk.Coins{coin2}}},
+		}
+	case "tf_change_admin":
+		if op.D == nil {
+			return nil
+		}
+		return &tftypes.MsgChangeAdmin{Sender: w.nibi(op.A).String(), Denom: w.denom(op.D), NewAdmin: w.nibi(op.To).String()}
 	case "convert":
 		x, ok := parseAmt(op.X)
 		if !ok {
@@ -450,11 +505,15 @@ func (w *world) run(op c06Op) bool {
 		}
 		w.toks = append(w.toks, crypto.CreateAddress(w.eoa[op.A-1].EthAddr, n))
 		return true
-	case "create_coin", "create_erc20", "convert":
+	case "create_coin", "create_erc20", "convert", "tf_create", "tf_mint", "tf_burn", "tf_change_admin", "bank_send", "bank_multisend":
 		if op.A != 3 && op.A != 4 {
 			return false
 		}
-		return w.cosmosTx(op.A-3, w.cosmosMsg(op))
+		m := w.cosmosMsg(op)
+		if m == nil {
+			return false
+		}
+		return w.cosmosTx(op.A-3, m)
 	case "send_to_bank", "send_to_evm", "bank_msg_send", "erc20_transfer", "erc20_burn":
 		target, in, ok := w.encode(op)
 		if !ok {
@@ -554,7 +613,7 @@ func (w *world) observe(op c06Op, ok bool) stepObs {
 		}
 	case "send_to_bank", "erc20_transfer", "erc20_burn", "create_erc20":
 		tt = op.T
-	case "fund", "convert", "send_to_evm", "bank_msg_send", "create_coin":
+	case "fund", "convert", "send_to_evm", "bank_msg_send", "create_coin", "tf_create", "tf_mint", "tf_burn", "tf_change_admin", "bank_send", "bank_multisend":
 		td = op.D
 	}
 	for _, m := range o.Reg {
@@ -627,6 +686,8 @@ type gen struct {
 	maps  []shadowMap
 	bank  map[denomRef]map[int]int64
 	erc   map[int]map[int]int64
+	tf    []denomRef       // factory denoms created so far
+	admin map[denomRef]int // … and their admins
 }
 
 func gasPayer(d denomRef, a int) bool { return d.K == "g" && a >= 1 && a <= 4 }
@@ -724,6 +785,9 @@ func (g *gen) pickMap(coin int) (shadowMap, bool) { // coin: 1 coin-born, 0 erc-
 }
 
 func (g *gen) coinDenom() denomRef {
+	if len(g.tf) > 0 && g.r.Chance(1, 3) {
+		return g.tf[g.r.Intn(len(g.tf))]
+	}
 	if g.r.Chance(1, 4) {
 		return denomRef{K: "g"}
 	}
@@ -837,6 +901,29 @@ func (g *gen) note(op c06Op) {
 		return ""
 	}
 	switch op.K {
+	case "tf_create":
+		if _, have := g.admin[*op.D]; !have && op.D.N/10 == op.A {
+			g.tf = append(g.tf, *op.D)
+			g.admin[*op.D] = op.A
+			g.meta[*op.D] = true
+		}
+	case "tf_mint":
+		if g.admin[*op.D] == op.A && x > 0 && op.To != 0 {
+			g.addB(*op.D, op.To, x)
+		}
+	case "tf_burn":
+		if g.admin[*op.D] == op.A && x > 0 && op.To != 0 && g.bbal(*op.D, op.To) >= x {
+			g.addB(*op.D, op.To, -x)
+		}
+	case "tf_change_admin":
+		if g.admin[*op.D] == op.A {
+			g.admin[*op.D] = op.To
+		}
+	case "bank_send":
+		if x > 0 && op.To != 0 && g.bbal(*op.D, op.A) >= x {
+			g.addB(*op.D, op.A, -x)
+			g.addB(*op.D, op.To, x)
+		}
 	case "meta":
 		g.meta[*op.D] = true
 	case "fund":
@@ -890,7 +977,7 @@ var evmActors = []int{1, 2, 5}
 
 func (g *gen) randomOp() {
 	r := g.r
-	switch r.Pick(6, 7, 15, 18, 15, 6, 13, 5, 3, 2, 12) {
+	switch r.Pick(6, 7, 15, 18, 15, 6, 13, 5, 3, 2, 12, 12) {
 	case 0: // create from coin
 		d := g.coinDenom()
 		if r.Chance(1, 15) && g.ntok > 0 {
@@ -956,6 +1043,56 @@ func (g *gen) randomOp() {
 		g.push(c06Op{K: "deploy", A: r.Range(1, 2), Kind: []string{"std", "fee", "heavy", "false"}[r.Pick(4, 4, 1, 1)]})
 	case 10: // two ops in one transaction
 		g.push(g.seqOp())
+	case 11: // other modules' transactions around the escrow: x/tokenfactory admin ops, plain bank sends
+		g.push(g.otherModuleOp())
+	}
+}
+
+// escrowOrAny: an account, with a good share of attempts on the EVM module account itself
+func (g *gen) escrowOrAny() int {
+	if g.r.Chance(3, 10) {
+		return 0
+	}
+	return g.anyTo()
+}
+
+func (g *gen) otherModuleOp() c06Op {
+	r := g.r
+	if len(g.tf) == 0 || r.Chance(1, 12) {
+		if r.Chance(1, 2) {
+			a := r.Range(3, 4)
+			return c06Op{K: "tf_create", A: a, D: &denomRef{K: "t", N: a*10 + r.Intn(3)}}
+		}
+	}
+	d := g.coinDenom()
+	if len(g.tf) > 0 && r.Chance(3, 4) {
+		d = g.tf[r.Intn(len(g.tf))]
+	}
+	sender := r.Range(3, 4)
+	if a, ok := g.admin[d]; ok && (a == 3 || a == 4) && !r.Chance(1, 8) {
+		sender = a
+	}
+	switch r.Pick(4, 6, 1, 5, 3) {
+	case 0:
+		return c06Op{K: "tf_mint", A: sender, D: &d, X: g.amount(500), To: g.escrowOrAny()}
+	case 1:
+		from := g.escrowOrAny()
+		return c06Op{K: "tf_burn", A: sender, D: &d, X: g.amount(g.bbal(d, from)), To: from}
+	case 2:
+		return c06Op{K: "tf_change_admin", A: sender, D: &d, To: []int{3, 4, 3, 4, 1, 5}[r.Intn(6)]}
+	case 3:
+		a := r.Range(3, 4)
+		return c06Op{K: "bank_send", A: a, D: &d, X: g.amount(g.bbal(d, a)), To: g.escrowOrAny()}
+	default:
+		a := r.Range(3, 4)
+		to, to2 := g.escrowOrAny(), g.escrowOrAny()
+		if to == a {
+			to = 6
+		}
+		if to2 == a || to2 == to {
+			to2 = 7 - a
+		}
+		return c06Op{K: "bank_multisend", A: a, D: &d, X: strconv.Itoa(r.Range(1, 40)), To: to, X2: strconv.Itoa(r.Range(1, 40)), To2: to2}
 	}
 }
 
@@ -1067,7 +1204,7 @@ func (g *gen) seqOp() c06Op {
 }
 
 func genCase(r *Rng) []c06Op {
-	g := &gen{r: r, meta: map[denomRef]bool{}, bank: map[denomRef]map[int]int64{}, erc: map[int]map[int]int64{}}
+	g := &gen{r: r, meta: map[denomRef]bool{}, bank: map[denomRef]map[int]int64{}, erc: map[int]map[int]int64{}, admin: map[denomRef]int{}}
 	nd := r.Range(2, 3)
 	for d := 0; d < nd; d++ {
 		g.push(c06Op{K: "meta", D: &denomRef{K: "c", N: d}})
@@ -1091,6 +1228,19 @@ func genCase(r *Rng) []c06Op {
 		g.push(c06Op{K: "fund", A: 5, D: &gd, X: strconv.Itoa(r.Range(500, 5000))})
 		if r.Chance(4, 5) {
 			g.push(c06Op{K: "create_coin", A: 4, D: &gd})
+		}
+	}
+	// a tokenfactory denom with holders, (mostly) mapped as a coin-born FunToken: its admin is a third party to the bridge
+	if r.Chance(1, 2) {
+		a := r.Range(3, 4)
+		td := denomRef{K: "t", N: a*10 + r.Intn(2)}
+		g.push(c06Op{K: "tf_create", A: a, D: &td})
+		for _, to := range []int{3, 4, 5, 1} {
+			g.push(c06Op{K: "tf_mint", A: a, D: &td, X: strconv.Itoa(r.Range(200, 3000)), To: to})
+		}
+		if r.Chance(5, 6) {
+			g.push(c06Op{K: "create_coin", A: 7 - a, D: &td})
+			g.push(c06Op{K: "convert", A: a, D: &td, X: strconv.Itoa(r.Range(50, 190)), To: r.Range(1, 2), Fmt: "hex"})
 		}
 	}
 	// mostly create the mappings early
@@ -1176,6 +1326,27 @@ func openers() [][]c06Op {
 			{K: "send_to_bank", A: 1, T: 0, X: "500", To: 6, Fmt: "bech32"},
 			{K: "send_to_bank", A: 2, T: 0, X: "1500", To: 5, Fmt: "hex"},
 			{K: "bank_msg_send", A: 1, D: &denomRef{K: "g"}, X: "5", To: 6, Fmt: "hex"},
+		},
+		// a tokenfactory denom with a coin-born mapping: its admin and the bank against the escrow
+		{
+			{K: "tf_create", A: 3, D: &denomRef{K: "t", N: 30}}, {K: "tf_create", A: 3, D: &denomRef{K: "t", N: 30}},
+			{K: "tf_mint", A: 3, D: &denomRef{K: "t", N: 30}, X: "1000", To: 3}, {K: "tf_mint", A: 3, D: &denomRef{K: "t", N: 30}, X: "500", To: 4},
+			{K: "tf_mint", A: 4, D: &denomRef{K: "t", N: 30}, X: "5", To: 4},
+			{K: "create_coin", A: 4, D: &denomRef{K: "t", N: 30}},
+			{K: "convert", A: 3, D: &denomRef{K: "t", N: 30}, X: "600", To: 1, Fmt: "hex"},
+			{K: "tf_burn", A: 3, D: &denomRef{K: "t", N: 30}, X: "250", To: 0},
+			{K: "tf_burn", A: 3, D: &denomRef{K: "t", N: 30}, X: "250", To: 4},
+			{K: "tf_mint", A: 3, D: &denomRef{K: "t", N: 30}, X: "10", To: 0},
+			{K: "bank_send", A: 4, D: &denomRef{K: "t", N: 30}, X: "5", To: 0},
+			{K: "bank_send", A: 4, D: &denomRef{K: "t", N: 30}, X: "5", To: 2},
+			{K: "bank_multisend", A: 4, D: &denomRef{K: "t", N: 30}, X: "3", To: 6, X2: "4", To2: 0},
+			{K: "bank_multisend", A: 4, D: &denomRef{K: "t", N: 30}, X: "3", To: 6, X2: "4", To2: 5},
+			{K: "send_to_evm", A: 2, D: &denomRef{K: "t", N: 30}, X: "5", To: 6, Fmt: "hex"},
+			{K: "send_to_bank", A: 1, T: 0, X: "100", To: 4, Fmt: "bech32"},
+			{K: "tf_change_admin", A: 3, D: &denomRef{K: "t", N: 30}, To: 4},
+			{K: "tf_burn", A: 3, D: &denomRef{K: "t", N: 30}, X: "1", To: 4},
+			{K: "tf_burn", A: 4, D: &denomRef{K: "t", N: 30}, X: "400", To: 0},
+			{K: "tf_burn", A: 4, D: &denomRef{K: "t", N: 30}, X: "1", To: 3},
 		},
 		// ERC20 whose transfer moves the tokens but returns false: usable by its holders, refused by the bridge
 		cat(pre, []c06Op{
